@@ -6,6 +6,9 @@ ROOT = os.path.dirname(os.path.dirname(os.path.abspath(__file__)))
 
 # id -> (level, technique, level text, level note, design ref)
 CHECKS = {
+    "C20": ("exploration", "sanitizer + result monitor: Go race detector build; goroutines run seeded read-only operations on one pool of shared nodes, selectors, prototypes, type systems, registry, link system and traversal config, in warm mode (sequential reference digests first) and cold mode (first use is concurrent); per-goroutine result digests compared with sequential ones; race logs de-duplicated by innermost library frames; overlap table shows which operation pairs were in flight together",
+            "Held on the schedules observed apart from one known finding (first-time schema inference writes the process-wide bindnode type system while readers use it). Absence of a race report is not absence of a race.",
+            "Trusted: the race detector. Stream-backed bytes nodes share the caller's reader and are not read concurrently.", "DESIGN.md §2 C20"),
     "C18": ("fault_enumeration", "runtime monitoring with crash and fault injection from outside the process: strace enumerates the file-system syscalls of each write scenario and injects SIGKILL (crash point) or an errno before every one of them; a fresh verifier process classifies the directory afterwards; concurrent reader/writer histories recorded at the client boundary and checked with porcupine (write-once register per key) in the race-detector build",
             "Every syscall boundary of every scenario was used as a crash point and as a fault point and the store was found atomic and usable afterwards; concurrent histories were linearizable and free of partial reads and race reports. Exhaustive per scenario; sampling over schedules.",
             "Trusted: strace injection as crash/fault model (process death and syscall errors; no power-loss model), porcupine, the race detector.", "DESIGN.md §2 C18"),
